@@ -18,8 +18,8 @@ if [ "${SKIP_CONFIRM:-0}" != 1 ]; then
 fi
 git -C /repo diff --quiet || { echo "/repo has local changes"; exit 2; }
 git -C /repo apply $src/patch.diff || exit 2
-shift 3 2>/dev/null
-for p in $prop "$@"; do
+extra="${@:4}"
+for p in $prop $extra; do
   ./run.sh $p $tier 2>/dev/null | grep -E "VIOLATION|failed condition|KNOWN|quick:|thorough:" | head -6
 done
 git -C /repo checkout -- .
